@@ -643,7 +643,7 @@ Proof.
   intros T T1 o dh p dh' p' Hc E Hp. unfold step_aliasing in E.
   destruct (running p) eqn:R; cbn [negb] in E; [|inversion E; subst; split; [reflexivity|intro; congruence]].
   destruct (Hp R) as [Hh Hx].
-  destruct o as [k c|k|k t|k k'|k t|m k t|k z|k s z|ps|ps|k k' n|k z| |t|e|k k' path]; cbn [check_op] in Hc.
+  destruct o as [tp k c|k|k t|k k'|k t|m k t|k z|k s z|ps|ps|k k' n|k z| |t|e|k k' path]; cbn [check_op] in Hc.
   - (* InjectIn *) inversion Hc; inversion E; subst. split; [reflexivity|]. intros _. cbn.
     split; [assumption|apply ctxfree_set_taint; assumption].
   - (* Unset *) inversion Hc; inversion E; subst. split; [reflexivity|]. intros _. cbn.
@@ -844,9 +844,9 @@ Lemma fold_taint_nil : forall A (f : list string -> A -> option (list string)) l
 Proof. intros A f l H. induction l as [|x r IH]; cbn; [reflexivity|]. rewrite H. exact IH. Qed.
 
 Lemma check_op_nil : forall o,
-  match o with InjectIn _ _ => False | _ => True end -> check_op [] o = Some [].
+  match o with InjectIn _ _ _ => False | _ => True end -> check_op [] o = Some [].
 Proof.
-  intros o H. destruct o as [k c|k|k t|k k'|k t|m k t|k z|k s z|ps|ps|k k' n|k z| |t|e|k k' path]; cbn [check_op];
+  intros o H. destruct o as [tp k c|k|k t|k k'|k t|m k t|k z|k s z|ps|ps|k k' n|k z| |t|e|k k' path]; cbn [check_op];
     try contradiction; try reflexivity.
   - destruct t as [z|m k'|l|d]; cbn [bind_taint].
     + reflexivity.
@@ -860,32 +860,67 @@ Proof.
   - cbn [tainted existsb orb]. rewrite (byref_nil t). reflexivity.
 Qed.
 
-Lemma inject_fixed_ok : forall fuel k c dh p dh' p',
-  (if negb (running p) then (dh, p) else
-   match copy fuel dh (ph p) [] c with
-   | Some (h, _, c') => (dh, set_ctx (aset k c' (ctx p)) (set_ph h p))
-   | None => (dh, unsup p)
-   end) = (dh', p') -> pinv [] p -> dh' = dh /\ pinv [] p'.
+Lemma copy_inject_ok : forall fuel k c dh p dh' p',
+  match copy fuel dh (ph p) [] c with
+  | Some (h, _, c') => (dh, set_ctx (aset k c' (ctx p)) (set_ph h p))
+  | None => (dh, unsup p)
+  end = (dh', p') -> heapfree (ph p) -> ctxfree [] (ctx p) -> dh' = dh /\ pinv [] p'.
 Proof.
-  intros fuel k c dh p dh' p' E Hp. destruct (running p) eqn:R; cbn [negb] in E.
-  - destruct (Hp R) as [Hh Hx].
-    destruct (copy fuel dh (ph p) [] c) as [[[h m] c']|] eqn:Ec; inversion E; subst.
-    + destruct (copy_ok _ _ _ _ _ _ _ _ Ec Hh (Forall_nil _)) as [A [_ C]].
-      split; [reflexivity|]. intros _. split; [exact A|]. apply ctxfree_set; assumption.
-    + split; [reflexivity|]. intro R'. discriminate.
+  intros fuel k c dh p dh' p' E Hh Hx.
+  destruct (copy fuel dh (ph p) [] c) as [[[h m] c']|] eqn:Ec; inversion E; subst.
+  - destruct (copy_ok _ _ _ _ _ _ _ _ Ec Hh (Forall_nil _)) as [A [_ C]].
+    split; [reflexivity|]. intros _. split; [exact A|]. apply ctxfree_set; assumption.
+  - split; [reflexivity|]. intro R'. discriminate.
+Qed.
+
+Lemma scalar_cellfree : forall l, forallb scalar_cell l = true -> forallb cellfree l = true.
+Proof.
+  induction l as [|c r IH]; cbn; intro H; [reflexivity|]. apply andb_true_iff in H. destruct H as [H1 H2].
+  rewrite (IH H2). destruct c; [reflexivity|discriminate].
+Qed.
+
+(* any discipline other than by-reference hands the context an object of the run's own heap *)
+Lemma inject_ok : forall fuel d k c dh p dh' p',
+  d <> ByRef -> inject fuel d dh p k c = (dh', p') -> heapfree (ph p) -> ctxfree [] (ctx p) ->
+  dh' = dh /\ pinv [] p'.
+Proof.
+  intros fuel d k c dh p dh' p' Hd E Hh Hx. destruct d; [congruence| | |].
+  - (* FreshList *)
+    cbn [inject] in E. destruct c as [z|i]; [inversion E; subst; dead|].
+    destruct (hget dh (ph p) i) as [[l|dd]|]; [|inversion E; subst; dead|inversion E; subst; dead].
+    destruct (forallb scalar_cell l) eqn:Es; [|inversion E; subst; dead].
+    unfold alloc in E. cbn in E. inversion E; subst. split; [reflexivity|]. intros _. cbn. split.
+    + apply heapfree_app; [assumption|]. cbn. apply scalar_cellfree. assumption.
+    + apply ctxfree_set; [assumption|reflexivity].
+  - exact (copy_inject_ok fuel k c dh p dh' p' E Hh Hx).
+  - exact (copy_inject_ok fuel k c dh p dh' p' E Hh Hx).
+Qed.
+
+Lemma step_of_ok : forall tbl, (forall tp, tbl tp <> ByRef) ->
+  forall o dh p dh' p', step_of tbl dh p o = (dh', p') -> pinv [] p -> dh' = dh /\ pinv [] p'.
+Proof.
+  intros tbl Htbl o dh p dh' p' E Hp.
+  assert (Hother : match o with InjectIn _ _ _ => False | _ => True end ->
+                   step_aliasing dh p o = (dh', p') -> dh' = dh /\ pinv [] p').
+  { intros Ho Es. exact (aliasing_step_ok [] [] o dh p dh' p' (check_op_nil o Ho) Es Hp). }
+  destruct o as [tp k c|k|k t|k k'|k t|m k t|k z|k s z|ps|ps|k k' n|k z| |t|e|k k' path];
+    try (apply Hother; [exact I|exact E]).
+  cbn [step_of] in E. destruct (running p) eqn:R; cbn [negb] in E.
+  - destruct (Hp R) as [Hh Hx]. exact (inject_ok FUEL (tbl tp) k c dh p dh' p' (Htbl tp) E Hh Hx).
   - inversion E; subst. split; [reflexivity|assumption].
 Qed.
 
+Lemma model_no_byref : forall tp, model_discipline tp <> ByRef.
+Proof. intros [] H; discriminate H. Qed.
+
 Lemma step_ok : forall o dh p dh' p',
   step dh p o = (dh', p') -> pinv [] p -> dh' = dh /\ pinv [] p'.
-Proof.
-  intros o dh p dh' p' E Hp.
-  assert (Hother : match o with InjectIn _ _ => False | _ => True end ->
-                   step_aliasing dh p o = (dh', p') -> dh' = dh /\ pinv [] p').
-  { intros Ho Es. exact (aliasing_step_ok [] [] o dh p dh' p' (check_op_nil o Ho) Es Hp). }
-  destruct o as [k c|k|k t|k k'|k t|m k t|k z|k s z|ps|ps|k k' n|k z| |t|e|k k' path]; try (apply Hother; [exact I|exact E]).
-  exact (inject_fixed_ok FUEL k c dh p dh' p' E Hp).
-Qed.
+Proof. exact (step_of_ok model_discipline model_no_byref). Qed.
+
+(* two tables that agree give the same machine *)
+Lemma step_of_ext : forall t1 t2, (forall tp, t1 tp = t2 tp) ->
+  forall dh p o, step_of t1 dh p o = step_of t2 dh p o.
+Proof. intros t1 t2 H dh p o. destruct o; cbn [step_of]; try reflexivity. rewrite H. reflexivity. Qed.
 
 (* every operation list, from any state satisfying the invariant, only READS the definition heap *)
 Lemma all_read_only : forall ops dh p, pinv [] p -> read_only step dh p ops.
